@@ -17,7 +17,8 @@ PROP = "C06"
 EV_TFD_CREATE, EV_TFD_SETTIME, EV_EPOLL_CTL, EV_RC, EV_VIOL, EV_FIRE, EV_STEP, EV_NOTE, EV_TIMEOUT = range(1, 10)
 VNAMES = {1: "fired-while-unregistered", 2: "fired-while-disabled", 3: "oneshot-fired-twice", 4: "dispatch-fired-without-reenable",
           5: "fired-without-condition", 6: "wrong-event-kind", 7: "eof-flag-missing", 8: "eof-flag-spurious", 9: "missing-callback",
-          10: "callback-on-wrong-thread", 11: "well-formed-operation-refused", 12: "error-flag-spurious", 13: "proc-flags"}
+          10: "callback-on-wrong-thread", 11: "well-formed-operation-refused", 12: "error-flag-spurious", 13: "proc-flags",
+          14: "descriptor-leak-after-deleting-everything"}
 KIND = ["read", "write", "timer", "proc"]
 TP_F_ONESHOT, TP_F_DISPATCH = 1, 2
 T_SEC, T_MSEC, T_USEC, T_NSEC, T_ABS = 0, 1, 2, 3, 4
